@@ -21,6 +21,15 @@ FIXED = int(os.environ.get("VERIF_C17_FIXED", "1"))
 COQ_TARGETS = ["Props/C17.vo", "Extract/ExtractC17.vo"] + (["Props/C17Now.vo"] if FIXED else [])
 DRIVERS = ["c17"]
 
+# C17-F9 (remap_columns integer_sources on a float64 column WITHOUT missing cells is not converted: '1.0') is a
+# pandas-representation effect outside the model; VERIF_C17_FIXED_F9=1 once fix-F9.diff is in the tree under test.
+FIXED_F9 = int(os.environ.get("VERIF_C17_FIXED_F9", "1"))   # fix commit 0437d48 is in /repo
+
+# C17-F10 (factor_column flags n/a rows for the factor value "nan": str(NaN) == "nan").  The Coq model follows the
+# code as it is (cell_str CNa = "nan", theorem C17_factor_na_is_zero states the exception); VERIF_C17_FIXED_F10=1 once
+# fix-F10.diff is in the tree under test -- the class is then judged by the oracle only (the model has no switch).
+FIXED_F10 = int(os.environ.get("VERIF_C17_FIXED_F10", "1"))   # fix commit 67be5b4 is in /repo
+
 FIX_KEYS = ("reorder", "factor", "match", "copy", "gaps", "disjoint")
 IMPL_FIXES = {k: bool(FIXED) for k in FIX_KEYS}
 
@@ -92,6 +101,10 @@ ASSUMPTIONS = [
     "input_unchanged is true by construction in a functional model (tables are values); on the implementation it is "
     "checked by testing only",
     "operations other than the eight non-summary ones are outside the model (validate returns Unmodelled)",
+    "numeric columns held by pandas as float64 with NaN (an integer column with missing cells) are an input "
+    "representation exercised only for remap_columns sources named in integer_sources, where the code converts them "
+    "to integer text; the model and the theorems (C17_remap_columns_meaning) speak of integer-valued cells and do not "
+    "distinguish int64 / object / float64 representations -- this dimension is tested only",
     "Exn Unmodelled is not a behaviour of the code but marks a run that left the modelled fragment; theorems over ALL "
     "tables (order independence, valid_always_runs) hold for such runs as equations between outcomes, their meaning "
     "inside the fragment is C17_valid_list_end_to_end / C17_order_independent_nth; the harness never compares a case "
@@ -192,8 +205,15 @@ def canon_df(df):
 
 
 def make_df(t):
+    """The table as a DataFrame.  Columns named in t["float_cols"] are held the way pandas holds an integer
+    column that has missing cells: float64 with NaN (3 -> 3.0, n/a -> NaN)."""
+    import numpy as np
     import pandas as pd
-    return pd.DataFrame([list(r) for r in t["rows"]], columns=list(t["cols"]))
+    df = pd.DataFrame([list(r) for r in t["rows"]], columns=list(t["cols"]))
+    for c in t.get("float_cols", []):
+        j = t["cols"].index(c)
+        df[c] = pd.Series([np.nan if r[j] == NA else float(r[j]) for r in t["rows"]], dtype="float64")
+    return df
 
 
 def exn_kind(e):
@@ -611,6 +631,43 @@ def merge_na_risk(ops, t):
     return False
 
 
+def f9_class(ops, t):
+    """Class of C17-F9: a remap_columns operation whose integer_sources name a column that the input frame holds as
+    float64 and that has NO missing cell (so replace(NaN, 'n/a') leaves it float64 and the integers assigned into it
+    are cast back to float)."""
+    fl = set(t.get("float_cols", []))
+    if not fl:
+        return False
+    for o in ops:
+        if o["operation"] == "remap_columns":
+            for c in o["parameters"].get("integer_sources", []):
+                if c in fl and c in t["cols"] and all(r[t["cols"].index(c)] != NA for r in t["rows"]) and t["rows"]:
+                    return True
+    return False
+
+
+def f10_class(ops, t):
+    """Class of C17-F10: a factor_column operation one of whose factor values (given, or the default = the distinct
+    values of the column) is the text "nan", on a column that also has n/a cells."""
+    for i, o in enumerate(ops):
+        if o["operation"] != "factor_column":
+            continue
+        tbl = t
+        if i > 0:
+            sp = spec_run(ops[:i], t)
+            if sp[0] != "ok":
+                continue
+            tbl = sp[1]
+        c = o["parameters"]["column_name"]
+        if c not in tbl["cols"]:
+            continue
+        cells = [r[tbl["cols"].index(c)] for r in tbl["rows"]]
+        values = o["parameters"].get("factor_values") or [str(x) for x in cells if x != NA]
+        if "nan" in values and NA in cells:
+            return True
+    return False
+
+
 def two_key_overflow(op):
     """Class of C17-F5: exactly two distinct keys whose 64-bit hashes overflow pandas' range inference."""
     p = op["parameters"]
@@ -721,6 +778,19 @@ def oracle(case, r, res):
                        fid=known("C17-F1" if mutated else None))
         # documented meaning / runs to completion, judged on the fresh run (history-free)
         sp = spec_run(ops, t)
+        if f10_class(ops, t) and not FIXED_F10:
+            if sp[0] == "ok" and "ok" in fr and not tables_equal(fr["ok"], sp[1], bool(multiset)):
+                res.report("documented-meaning", ck, f"impl={str(fr)[:200]} documented={str(sp)[:200]}", fid="C17-F10")
+            elif sp[0] == "ok" and "exn" in fr:
+                res.report("valid-runs", ck, f"{fr['exn']}: {fr.get('msg')}")
+            continue
+        if not FIXED_F9 and f9_class(ops, t):
+            wrong = ("exn" in fr) if sp[0] == "ok" else ("ok" in fr and sp[0] == "raise")
+            if sp[0] == "ok" and "ok" in fr and not tables_equal(fr["ok"], sp[1], bool(multiset)):
+                wrong = True
+            if wrong:
+                res.report("documented-meaning", ck, f"impl={str(fr)[:200]} documented={str(sp)[:200]}", fid="C17-F9")
+            continue
         if multiset is None and sp[0] == "ok" and completion_only(ops) and not merge_na_risk(ops, t) and "exn" in fr:
             # merge_consecutive after split_rows: the table depends on the unspecified order of equal onsets,
             # but running to completion does not
@@ -781,6 +851,10 @@ def compare_model(case, r, m):
     for k, (out, mo) in enumerate(zip(r["results"], outs)):
         if merge_na_risk(case["ops"], case["tables"][k]):
             continue
+        if not FIXED_F9 and f9_class(case["ops"], case["tables"][k]):
+            continue                 # float64 representation effect (known finding C17-F9), not in the model
+        if FIXED_F10 and f10_class(case["ops"], case["tables"][k]):
+            continue                 # the model follows the code before fix-F10 (cell_str CNa = "nan")
         if not FIXED and "exn" in out and classify_crash(case["ops"], out) == "C17-F5":
             return None              # pandas/hash-seed effect (known finding), deliberately not in the model
         if mo[0] == "exn":
@@ -1364,6 +1438,72 @@ def malformed_key_cases(rng, n):
     return out
 
 
+def remap_int_cases(rng, n):
+    """remap_columns with TWO OR MORE integer_sources: numeric source columns with missing cells -- held as float64
+    with NaN or as Python numbers with n/a -- rows that are n/a in some but not all of them, and map_list entries
+    for such partial keys (keys containing n/a).  Documented meaning: each integer source is read as integer
+    text on its own, n/a stays the key text n/a, the first matching entry gives the destinations."""
+    out = []
+    for _ in range(n):
+        nk = rng.choice([2, 2, 3])
+        kcols = rng.sample(["a", "c", "d", "onset", "duration"], nk)
+        pool_x = ["b"] + [c for c in ["a", "c", "d"] if c not in kcols]
+        extra = rng.sample(pool_x, rng.randint(0, min(2, len(pool_x))))
+        cols = kcols + extra
+        rng.shuffle(cols)
+        rows = []
+        for _ in range(rng.randint(3, 6)):
+            rows.append([(NA if rng.random() < 0.35 else rng.randint(0, 3)) if c in kcols
+                         else rng.choice(["x", "stop", "X", NA, "b"]) for c in cols])
+        # make sure some row is n/a in exactly some of the integer sources
+        r = rng.choice(rows)
+        ks = [cols.index(c) for c in kcols]
+        r[ks[0]] = NA
+        r[ks[1]] = rng.randint(0, 3)
+        use_float = rng.random() < 0.6
+        t = {"cols": cols, "rows": rows}
+        if use_float:
+            # float64 + NaN is how pandas holds an integer column that has missing cells; a float64 column without
+            # missing cells is the (rarer) class of C17-F9
+            t["float_cols"] = [c for c in kcols if any(r[cols.index(c)] == NA for r in rows) or rng.random() < 0.1]
+        src = list(kcols)
+        if extra and "b" in extra and rng.random() < 0.3:
+            src.insert(rng.randint(0, len(src)), "b")
+        idx = [cols.index(c) for c in src]
+        present = list(dict.fromkeys(tuple(r[i] for i in idx) for r in rows))
+        rng.shuffle(present)
+        keys = present[:rng.randint(2, 5)]
+        partial = [k for k in present if any(x == NA for x in k) and not all(x == NA for x in k)]
+        for k in partial[:2]:
+            if k not in keys:
+                keys.insert(rng.randint(0, len(keys)), k)
+        if rng.random() < 0.4:
+            keys.insert(rng.randint(0, len(keys)), tuple(rng.choice([7, NA]) for _ in src))
+        entries = []
+        for k in keys:
+            e = [(str(x) if (isinstance(x, int) and rng.random() < 0.3) else x) for x in k]   # 3 may be written "3"
+            entries.append(e)
+        if rng.random() < 0.4 and entries:
+            entries.insert(rng.randint(0, len(entries)), list(rng.choice(entries)))          # a repeated key
+        dst = rng.sample([c for c in NEWCOLS + ["h"] if c not in cols], rng.randint(1, 2))
+        ml = []
+        for e_i, e in enumerate(entries):
+            row = e + [(f"v{e_i}" if rng.random() < 0.7 else 100 + e_i) for _ in dst]
+            if row not in ml:
+                ml.append(row)
+        ints = list(kcols) if use_float else rng.sample(kcols, rng.randint(2, len(kcols)))
+        # (a numeric source that is not an integer source must not be float64: its text would be "3.0")
+        rng.shuffle(ints)
+        ops = [op("remap_columns", source_columns=src, destination_columns=dst, map_list=ml,
+                  ignore_missing=rng.random() < 0.8, integer_sources=ints)]
+        if rng.random() < 0.3:
+            ops.append(active_op(rng, rng.choice(["rename_columns", "reorder_columns", "remove_columns"]),
+                                 {"cols": cols, "rows": rows}))
+        tables = [t] if rng.random() < 0.7 else [t, t]
+        out.append({"ops": ops, "tables": tables, "expect_valid": spec_valid(ops), "kind": "remap-integer-sources"})
+    return out
+
+
 def malformed_cases(rng, n):
     """Lists that violate the JSON specification in exactly one known way."""
     out = []
@@ -1493,6 +1633,13 @@ def corpus():
         {"ops": [op("merge_consecutive", column_name="b", event_code="x", set_durations=True, ignore_missing=True,
                     match_columns=[])],
          "tables": [{"cols": ["b", "onset", "duration"], "rows": [["x", 3, NA], ["x", 1, 1], ["stop", NA, 2]]}]},
+        # C17-F10: the factor value "nan" also flags n/a rows
+        {"ops": [op("factor_column", column_name="a", factor_values=["nan", "x"], factor_names=["e", "f"])],
+         "tables": [{"cols": ["a", "b"], "rows": [["nan", "1"], [NA, "2"], ["x", "3"]]}]},
+        # C17-F9: integer_sources on a float64 column without missing cells
+        {"ops": [op("remap_columns", source_columns=["a"], destination_columns=["e"], map_list=[[1, "one"], [2, "two"]],
+                    ignore_missing=True, integer_sources=["a"])],
+         "tables": [{"cols": ["a", "b"], "rows": [[1, "x"], [2, "y"]], "float_cols": ["a"]}]},
         # C17-F7
         {"ops": [op("remap_columns", source_columns=["a"], destination_columns=["a"], map_list=[["1", "one"]],
                     ignore_missing=True)], "tables": [T1]},
@@ -1553,6 +1700,7 @@ def run(tier, seed, res, model_ok=True, proof_ok=True):
         + malformed_cases(rng, nbad) + drop_cases(rng, 3 if tier == "quick" else 20) \
         + chain_cases(rng, 5 if tier == "quick" else 40, 200 if tier == "quick" else 3000) \
         + remap_cases(rng, 250 if tier == "quick" else 3000) \
+        + remap_int_cases(rng, 200 if tier == "quick" else 2500) \
         + file_cases(rng, 250 if tier == "quick" else 3000) + odd_name_cases(rng, 120 if tier == "quick" else 1500) \
         + malformed_key_cases(rng, 300 if tier == "quick" else 4000)
     with Pool(int(C.JOBS)) as pool:
